@@ -59,7 +59,7 @@ def _from_array(nextx, nexty, _mv=_mv, dtype=np.intp):
         outside = r_ds >= nrow or c_ds >= ncol or r_ds < 0 or c_ds < 0
         idx_ds = c_ds + r_ds * ncol
         # pit or outside or ds cell is mv
-        if pit or outside or nextx_flat[idx_ds] == _mv:
+        if pit or outside or idx_ds == idx0 or nextx_flat[idx_ds] == _mv:
             pits_lst.append(idx0)
             idxs_ds[idx0] = idx0
         else:
